@@ -209,43 +209,71 @@ func containerIDs(docs []*Doc) map[uintptr]bool {
 }
 
 // resultSig: like shallowSig, but a container that is NOT part of the caller's documents
-// (docIDs non-nil) - a value a user function produced - is rendered deeply: it belongs to the
-// caller just like the slice itself.
+// (docIDs non-nil) - a value a user function produced - is rendered by content, recursively,
+// down to the containers of the documents (which are rendered by identity: what happens inside
+// them is the caller's or C04's business).
 func resultSig(res []interface{}, docIDs map[uintptr]bool) string {
 	var b strings.Builder
 	for i, e := range res {
 		if i > 0 {
 			b.WriteByte(',')
 		}
-		switch t := e.(type) {
-		case map[string]interface{}:
-			if docIDs != nil && t != nil && !docIDs[reflect.ValueOf(t).Pointer()] {
-				canonTo(&b, e, 0)
-				continue
-			}
-			fmt.Fprintf(&b, "map@%p", t)
-		case []interface{}:
-			if docIDs != nil && len(t) > 0 && !docIDs[reflect.ValueOf(t).Pointer()] {
-				// the elements of such a list may be containers of the document: one level deep
-				b.WriteString("list(" + resultSig(t, docIDs) + ")")
-				continue
-			}
-			if len(t) == 0 {
-				fmt.Fprintf(&b, "slice/0")
-			} else {
-				fmt.Fprintf(&b, "slice@%p/%d", &t[0], len(t))
-			}
-		case jsonpath.Accessor:
-			if t.Set == nil {
-				b.WriteString("ACC{set:nil}")
-			} else {
-				b.WriteString("ACC{set:fn}")
-			}
-		default:
-			canonTo(&b, e, 0)
-		}
+		sigValue(&b, e, docIDs, 0)
 	}
 	return b.String()
+}
+
+func sigValue(b *strings.Builder, v interface{}, docIDs map[uintptr]bool, depth int) {
+	if depth > 20 {
+		b.WriteString("<deep>")
+		return
+	}
+	switch t := v.(type) {
+	case map[string]interface{}:
+		if docIDs == nil || t == nil || docIDs[reflect.ValueOf(t).Pointer()] {
+			fmt.Fprintf(b, "map@%p", t)
+			return
+		}
+		keys := make([]string, 0, len(t))
+		for k := range t {
+			keys = append(keys, k)
+		}
+		sort.Strings(keys)
+		b.WriteByte('{')
+		for i, k := range keys {
+			if i > 0 {
+				b.WriteByte(',')
+			}
+			b.WriteString(strconv.Quote(k) + ":")
+			sigValue(b, t[k], docIDs, depth+1)
+		}
+		b.WriteByte('}')
+	case []interface{}:
+		if len(t) == 0 {
+			b.WriteString("slice/0")
+			return
+		}
+		if docIDs == nil || docIDs[reflect.ValueOf(t).Pointer()] {
+			fmt.Fprintf(b, "slice@%p/%d", &t[0], len(t))
+			return
+		}
+		b.WriteString("list(")
+		for i, e := range t {
+			if i > 0 {
+				b.WriteByte(',')
+			}
+			sigValue(b, e, docIDs, depth+1)
+		}
+		b.WriteByte(')')
+	case jsonpath.Accessor:
+		if t.Set == nil {
+			b.WriteString("ACC{set:nil}")
+		} else {
+			b.WriteString("ACC{set:fn}")
+		}
+	default:
+		canonTo(b, v, 0)
+	}
 }
 
 // deepCopyShared copies v preserving its aliasing: a container reachable through several
